@@ -145,6 +145,8 @@ def check(case):
     model = opscfg.resolve(case)
     if case[0] == 'SE':
         return opscfg.edit_history(model, FMEstimatedConfigurationsNumber, judge)
+    if case[0] == 'ST':
+        return opscfg.overlap(case[1], case[2], FMEstimatedConfigurationsNumber, judge)
     if case[0] == 'SF':
         return opscfg.failure_history(model, FMEstimatedConfigurationsNumber, judge)
     if case[0] == 'SO':
